@@ -23,8 +23,9 @@ RULE = (
     "consumer steps 0..len+1 is ENUMERATED completely; items must be the plain list's objects in order, and the "
     "k-th awaitable may only be awaited after the consumer asked for item k (await log interleaved with the "
     "consumer log). apply: Hypothesis draws 0-3 positional and 0-3 keyword arguments as awaitables of three "
-    "kinds; result must equal f(*values, **values) and the awaits happen in argument order. sync: Hypothesis "
+    "kinds, or ONE reusable awaitable object passed for several parameters (every await of it yields a new value); result must equal f(*values, **values) and the awaits happen in argument order. sync: Hypothesis "
     "draws a callable flavour (def, async def, partial of async def, callable object, def returning an awaitable, "
+    "a class (instances plain or themselves async-callable), bound sync / async method, lambda returning a coroutine, "
     "mixed) and a sequence of 1-4 calls each returning plain / returning an awaitable / raising; calling the "
     "wrapper never raises, awaiting gives the same result or exception object as calling-and-awaiting the "
     "callable; coroutine functions are returned unchanged. Non-trivial: >= 2 items with an awaitable layer "
@@ -181,7 +182,8 @@ def grid_nontrivial(case):
 
 @st.composite
 def apply_cases(draw):
-    kinds = st.sampled_from(["coroutine", "object", "suspending"])
+    # "shared": ONE reusable awaitable object passed for several parameters; every await of it gives a new value
+    kinds = st.sampled_from(["coroutine", "object", "suspending", "shared", "shared"])
     return {"adapter": "apply", "pos": draw(st.lists(kinds, max_size=3)),
             "kw": draw(st.lists(st.tuples(st.sampled_from(["a", "b", "c"]), kinds), max_size=3,
                                 unique_by=lambda t: t[0])),
@@ -193,8 +195,40 @@ def check_apply(case):
     log = []
     pos_vals = [Item(0, i) for i in range(len(case["pos"]))]
     kw_vals = {name: Item(1, 10 + i) for i, (name, _) in enumerate(case["kw"])}
-    pos = [wrap(ctx, k, v, log, ("pos", i)) for i, (k, v) in enumerate(zip(case["pos"], pos_vals))]
-    kw = {name: wrap(ctx, k, kw_vals[name], log, ("kw", name)) for name, k in case["kw"]}
+    shared_vals = []
+
+    class Shared:
+        """reusable awaitable: each await is a separate operation with its own result"""
+
+        def __await__(self):
+            n = len(shared_vals)
+            log.append(("await", ("shared", n)))
+            shared_vals.append(Item(2, 100 + n))
+            if n % 2:
+                yield from ctx.suspend(("shared", n)).__await__()
+            return shared_vals[n]
+
+    shared = Shared()
+    pos = [shared if k == "shared" else wrap(ctx, k, v, log, ("pos", i))
+           for i, (k, v) in enumerate(zip(case["pos"], pos_vals))]
+    kw = {name: shared if k == "shared" else wrap(ctx, k, kw_vals[name], log, ("kw", name)) for name, k in case["kw"]}
+    # expected values / await log: arguments are awaited one by one in argument order
+    expected_log, n_shared = [], 0
+    for i, k in enumerate(case["pos"]):
+        if k == "shared":
+            expected_log.append(("await", ("shared", n_shared)))
+            pos_vals[i] = ("shared", n_shared)
+            n_shared += 1
+        else:
+            expected_log.append(("await", ("pos", i)))
+    for name, k in case["kw"]:
+        if k == "shared":
+            expected_log.append(("await", ("shared", n_shared)))
+            kw_vals[name] = ("shared", n_shared)
+            n_shared += 1
+        else:
+            expected_log.append(("await", ("kw", name)))
+    expected_log.append(("call",))
     boom = ValueError("f failed")
     seen = []
 
@@ -209,6 +243,12 @@ def check_apply(case):
         outcome = run(ctx, a.apply(f, *pos, **kw))
         close_orphans(ctx)
     close_unawaited(pos + list(kw.values()))
+    if len(shared_vals) != n_shared and log == expected_log[:len(log)]:
+        raise Violation("C19/apply/await-order", f"{case}: reusable awaitable awaited {len(shared_vals)} times for "
+                                                  f"{n_shared} parameters")
+    pos_vals = [shared_vals[v[1]] if isinstance(v, tuple) and v[1] < len(shared_vals) else v for v in pos_vals]
+    kw_vals = {n: (shared_vals[v[1]] if isinstance(v, tuple) and v[1] < len(shared_vals) else v)
+               for n, v in kw_vals.items()}
     if len(seen) != 1:
         raise Violation("C19/apply/function-not-called-once", f"{case}: {len(seen)} calls")
     args, kwargs = seen[0]
@@ -216,8 +256,6 @@ def check_apply(case):
         raise Violation("C19/apply/positional-values-differ", f"{case}: {args}")
     if list(kwargs) != [n for n, _ in case["kw"]] or any(kwargs[n] is not kw_vals[n] for n in kwargs):
         raise Violation("C19/apply/keyword-values-differ", f"{case}: {kwargs}")
-    expected_log = [("await", ("pos", i)) for i in range(len(pos))] + \
-                   [("await", ("kw", n)) for n, _ in case["kw"]] + [("call",)]
     if log != expected_log:
         raise Violation("C19/apply/await-order", f"{case}: {log}")
     if case["raises"]:
@@ -232,8 +270,9 @@ def check_apply(case):
 
 @st.composite
 def sync_cases(draw):
-    flavour = draw(st.sampled_from(["def", "async", "partial", "obj", "obj-awaitable", "def-mixed"]))
-    if flavour == "def":
+    flavour = draw(st.sampled_from(["def", "async", "partial", "obj", "obj-awaitable", "def-mixed", "class",
+                                    "class-async-call", "method", "async-method", "lambda-coro"]))
+    if flavour in ("def", "class", "class-async-call", "method"):
         kinds = st.sampled_from(["plain", "raise"])
     elif flavour == "def-mixed":
         kinds = st.sampled_from(["plain", "coroutine", "object", "raise", "suspending", "futurelike",
@@ -299,10 +338,35 @@ def check_sync(case):
             values[k] = Item(0, k)
             return Aw(ctx, values[k], susp=1)
 
-    target = {"def": plain_def, "def-mixed": plain_def, "async": coro_fn,
+    class Made:
+        """a class is a callable too: calling it gives an instance (which is the plain result)"""
+
+        def __init__(self, arg):
+            k, kind = next(calls)
+            if kind == "raise":
+                errors[k] = exc_type(f"call {k}")
+                raise errors[k]
+            values[k] = self
+
+    class MadeAsyncCall(Made):
+        # the INSTANCES are async callables; constructing one is an ordinary synchronous call
+        async def __call__(self, arg):
+            return arg
+
+    class Holder:
+        def method(self, arg):
+            return plain_def(arg)
+
+        async def amethod(self, arg):
+            return await coro_fn(arg)
+
+    holder = Holder()
+    target = {"class": Made, "class-async-call": MadeAsyncCall, "method": holder.method,
+              "async-method": holder.amethod, "lambda-coro": lambda arg: coro_fn(arg),
+              "def": plain_def, "def-mixed": plain_def, "async": coro_fn,
               "partial": functools.partial(coro_fn2, "x"), "obj": Obj(), "obj-awaitable": ObjAw()}[flavour]
     wrapper = a.sync(target)
-    if flavour in ("async", "partial") and wrapper is not target:
+    if flavour in ("async", "partial", "async-method") and wrapper is not target:
         raise Violation("C19/sync/coroutine-function-not-returned-unchanged", flavour)
     for k, kind in enumerate(case["calls"]):
         try:
